@@ -205,6 +205,46 @@ fn redeem_digest(p: &RedeemNode) -> u64 {
     digest_bytes("redeem", &[&a, &b, p.cmr().as_ref(), p.ihr().as_ref(), p.amr().as_ref()])
 }
 
+/// The commitment-time flow of a wallet: decode the program without witness, then attach the
+/// witness values with `CommitNode::finalize` (a walk without sharing, so only for DAGs whose
+/// tree expansion is small). Digest: roots of every node of the result.
+fn commit_time_flow(redeem: &RedeemNode, fam: Family) -> u64 {
+    use simplicity::dag::NoSharing;
+    let (prog, _) = redeem.to_vec_with_witness();
+    let decoded = match fam {
+        Family::Core => CommitNode::decode::<_, Core>(BitIter::new(prog.iter().copied())),
+        Family::Elements => CommitNode::decode::<_, simplicity::jet::Elements>(BitIter::new(prog.iter().copied())),
+    };
+    let commit = match decoded {
+        Ok(c) => c,
+        Err(_) => return digest_bytes("commit-flow-undecodable", &[]),
+    };
+    if commit.as_ref().post_order_iter::<NoSharing>().take(4001).count() > 4000 {
+        return digest_bytes("commit-flow-too-wide", &[]);
+    }
+    let values: Vec<Value> = redeem
+        .post_order_iter::<NoSharing>()
+        .filter_map(|d| match d.node.inner() {
+            simplicity::node::Inner::Witness(v) => Some(v.shallow_clone()),
+            _ => None,
+        })
+        .collect();
+    match commit.finalize(&mut simplicity::node::SimpleFinalizer::new(values.into_iter())) {
+        Ok(r) => {
+            let mut h = Fnv::new();
+            for d in r.as_ref().post_order_iter::<InternalSharing>() {
+                h.bytes(d.node.cmr().as_ref());
+                h.bytes(d.node.ihr().as_ref());
+                h.bytes(d.node.amr().as_ref());
+                h.u64(d.node.bounds().extra_cells as u64);
+            }
+            h.u64(redeem_digest(&r));
+            h.0
+        }
+        Err(_) => digest_bytes("commit-flow-finalize-err", &[]),
+    }
+}
+
 fn decode_err_class(e: &simplicity::DecodeError) -> &'static str {
     match e {
         simplicity::DecodeError::Decode(_) => "Decode",
@@ -812,9 +852,25 @@ fn run_op(op: &Op, shared: &[Shared], mine: &mut [Option<Arc<RedeemNode>>], conc
         },
         Op::Build(seed, size, fam) => {
             let mut r = Rng::new(*seed);
-            let rec = programs::random_recipe(&mut r, *fam, *size);
+            // size >= 1000 encodes "instance (size / 1000) of the template (seed, size % 1000)": the
+            // same recipe with the sizes and values of its word constants shifted, i.e. the same
+            // combinators (and for the word-free parts the same CMRs) at different types
+            let (variant, size) = (*size / 1000, *size % 1000);
+            let mut rec = programs::random_recipe(&mut r, *fam, size);
+            if variant > 0 {
+                for o in rec.ops.iter_mut() {
+                    if let programs::GOp::Word(n, v) = o {
+                        *n = ((*n as usize + variant) % 7) as u8;
+                        *v ^= (variant as u64).wrapping_mul(0x9e37_79b9_7f4a_7c15);
+                    }
+                }
+                rec.wit_seed ^= variant as u64;
+            }
             match programs::build(&rec) {
-                Some(b) => redeem_digest(&b.redeem),
+                Some(b) => {
+                    let d = redeem_digest(&b.redeem);
+                    digest_bytes("build", &[&d.to_le_bytes(), &commit_time_flow(&b.redeem, *fam).to_le_bytes()])
+                }
                 None => digest_bytes("build-none", &[]),
             }
         }
@@ -1048,6 +1104,7 @@ fn gen_plan(r: &mut Rng, tier: Tier, out: &mut RunOut) -> Plan {
     let n_threads = if wide { r.urange(8, 16) } else { r.urange(2, 4) };
     let mut w: [u32; 16] = [5, 3, 3, 5, 4, 4, 6, 5, 4, 3, 2, 2, 3, 4, 4, 5];
     let mut policy_kind: Option<u8> = None;
+    let mut build_template: Option<(u64, usize)> = None;
     for x in w.iter_mut() {
         if r.chance(1, 5) {
             *x = 0;
@@ -1059,14 +1116,30 @@ fn gen_plan(r: &mut Rng, tier: Tier, out: &mut RunOut) -> Plan {
     // storms: every thread runs operations of ONE kind, so that whatever process-wide state that
     // entry point keeps is hit by a crowd (policy satisfaction with differing satisfiers, execution,
     // pruning, decoding, roots, human encoding, building, values)
-    if r.chance(1, 4) {
-        let fam = *r.pick(&[10usize, 10, 10, 6, 7, 0, 3, 11, 8, 12]);
+    // (VERIF_C20_STORM=<op index> forces storms of one kind: an experimenter's switch, unused by checks)
+    let forced: Option<usize> = std::env::var("VERIF_C20_STORM").ok().and_then(|s| s.parse().ok());
+    if r.chance(1, 3) || forced.is_some() {
+        let fam = forced.unwrap_or(*r.pick(&[10usize, 10, 10, 8, 8, 8, 6, 7, 0, 3, 11, 12]));
         w = [0; 16];
         w[fam] = 1;
         out.count("storm_workloads", 1);
         if fam == 10 {
             // one policy template, many satisfiers
             policy_kind = Some(*r.pick(&[7u8, 8, 9, 3, 4, 7, 9]));
+        }
+        if fam == 8 {
+            // one program template (a recipe with at least one word constant), many instances at
+            // different word sizes: same combinators and commitment roots of the word-free parts,
+            // different types, built, finalised and dropped over and over
+            for _ in 0..40 {
+                let seed = r.next_u64();
+                let size = r.urange(4, 12);
+                let rec = programs::random_recipe(&mut Rng::new(seed), Family::Core, size);
+                if rec.ops.iter().any(|o| matches!(o, programs::GOp::Word(..))) && in_shuttle(move || programs::build(&rec).is_some()) {
+                    build_template = Some((seed, size));
+                    break;
+                }
+            }
         }
     }
     let ns = shared.len().max(1);
@@ -1084,7 +1157,10 @@ fn gen_plan(r: &mut Rng, tier: Tier, out: &mut RunOut) -> Plan {
                 5 => Op::ToConstruct(r.usize_below(ns)),
                 6 => Op::Exec(r.usize_below(ns)),
                 7 => Op::Prune(r.usize_below(ns)),
-                8 => Op::Build(r.next_u64(), r.urange(3, 14), if r.bool() { Family::Core } else { Family::Elements }),
+                8 => match build_template {
+                    Some((seed, size)) => Op::Build(seed, size + 1000 * r.urange(0, 6), Family::Core),
+                    None => Op::Build(r.next_u64(), r.urange(3, 14), if r.bool() { Family::Core } else { Family::Elements }),
+                },
                 9 => Op::IllTyped(r.byte()),
                 10 => match policy_kind {
                     Some(k) => Op::Policy(k + 10 * r.below(25) as u8),
